@@ -1,5 +1,5 @@
 SPECIFICATION MCSpec
-CONSTANTS MaxIn = 1  MaxOps = 5  MidRunChunks = TRUE  TinyInput = TRUE  Bugs = {}
+CONSTANTS MaxIn = 2  MaxOps = 3  MidRunChunks = TRUE  TinyInput = TRUE  Bugs = {}
  Encs = {"stream", "mt", "raw", "block"}  Grants = {"big"}  Checks = {"crc"}  BSizes = {0, 1}
 VIEW MCView
 INVARIANTS TypeOK NotBad DecodableLeGiven NoEmptyBlock SeqAgrees
